@@ -9,12 +9,45 @@ package c39_identifier
 
 import (
 	"math/big"
+
+	"github.com/mutagen-io/mutagen/pkg/encoding"
+
 	"unicode"
 	"unicode/utf8"
 )
 
-// alphabet62 is the documented digit order of Mutagen's Base62: 0-9, a-z, A-Z.
-const alphabet62 = "0123456789" + "abcdefghijklmnopqrstuvwxyz" + "ABCDEFGHIJKLMNOPQRSTUVWXYZ"
+// alphabet62 is the digit order of Mutagen's Base62. The exported constant is
+// taken as the definition of the digits' values (any permutation of 0-9a-zA-Z
+// gives an injective encoding; alphabetProblem checks that it is one), all
+// arithmetic on top of it is the harness's own.
+const alphabet62 = encoding.Base62Alphabet
+
+// alphabetProblem reports why the alphabet cannot carry an injective encoding
+// into [0-9a-zA-Z]{43} ("" if it can).
+func alphabetProblem() string {
+	if len(alphabet62) != 62 {
+		return "the Base62 alphabet does not have 62 characters"
+	}
+	seen := map[byte]bool{}
+	for i := 0; i < len(alphabet62); i++ {
+		c := alphabet62[i]
+		if !(c >= '0' && c <= '9' || c >= 'a' && c <= 'z' || c >= 'A' && c <= 'Z') || seen[c] {
+			return "the Base62 alphabet is not a permutation of 0-9a-zA-Z"
+		}
+		seen[c] = true
+	}
+	return ""
+}
+
+var digitValue = func() (t [256]int) {
+	for i := range t {
+		t[i] = -1
+	}
+	for i := 0; i < len(alphabet62); i++ {
+		t[alphabet62[i]] = i
+	}
+	return
+}()
 
 const (
 	prefixLength = 4
@@ -24,17 +57,7 @@ const (
 	truncLength  = prefixLength + 1 + 8
 )
 
-func digit62(c byte) int {
-	switch {
-	case c >= '0' && c <= '9':
-		return int(c - '0')
-	case c >= 'a' && c <= 'z':
-		return int(c-'a') + 10
-	case c >= 'A' && c <= 'Z':
-		return int(c-'A') + 36
-	}
-	return -1
-}
+func digit62(c byte) int { return digitValue[c] }
 
 // decode62 reads s as a big-endian base-62 numeral (Horner, math/big).
 func decode62(s string) (*big.Int, bool) {
@@ -84,7 +107,7 @@ func isIdentifier(s string) bool {
 		return false
 	}
 	for i := prefixLength + 1; i < len(s); i++ {
-		if digit62(s[i]) < 0 {
+		if c := s[i]; !(c >= '0' && c <= '9' || c >= 'a' && c <= 'z' || c >= 'A' && c <= 'Z') {
 			return false
 		}
 	}
